@@ -41,6 +41,8 @@ AVOID_DOC = {
                                "tick too many in boa.  Under the flag an async generator whose body contains `yield*` is never iterated "
                                "by for-await / another yield* (which may call return() on it) and its objects never get a .return() request; "
                                "next()/throw() requests on it stay in the stream.",
+    "labeled_break_out_of_iteration": "open finding C16-K2: `break L` from inside a for-of / for-await-of body to an enclosing labelled statement "
+                                      "does not close the iterator in boa.  Under the flag the labelled-loop form only uses `continue L`.",
 }
 
 PREAMBLE = [
@@ -594,7 +596,7 @@ class Gen:
                 self.use("labeled_for_await")
                 self.labeln += 1
                 L, j = "L%d" % self.labeln, self.fresh("j")
-                jump = r.choice(["continue %s;" % L, "break %s;" % L])
+                jump = "continue %s;" % L if "labeled_break_out_of_iteration" in self.avoid or r.chance(0.5) else "break %s;" % L
                 inner = "for await (%s %s of %s) { %s if (%s === %s) %s }" % (decl, x, it, " ".join(body), x, r.choice(["1", "2", "'a'", x]), jump)
                 loop = "%s: for (var %s = 0; %s < 2; %s++) { %s %s }" % (L, j, j, j, inner, pr(self.tag(b)))
             return loop, False
@@ -668,9 +670,10 @@ class Gen:
         else:
             self.use("destructure_await")
             w2 = self.fresh("w")
+            ops = (self.awaitable(c), self.awaitable(c))   # evaluated before the suspension
             c.after = True
             c.locals += [w, w2]
-            return "var [%s, %s] = await Promise.all([%s, %s]); %s" % (w, w2, self.awaitable(c), self.awaitable(c), pr(self.tag(c), w, w2))
+            return "var [%s, %s] = await Promise.all([%s, %s]); %s" % (w, w2, ops[0], ops[1], pr(self.tag(c), w, w2))
         c.after = True
         c.locals.append(w)
         return "var %s = %s; %s" % (w, e, pr(self.tag(c), w))
